@@ -26,7 +26,7 @@ def work(job):
 
 def judge_case(d, edits, r, c):
     """-> (failure text or None, known finding (id, what) or None) for one previewed + committed batch"""
-    if r['err']: return J.classify(c, 'preview/commit raised ' + r['err'], block_region=True)
+    if r['err']: return J.classify(c, 'preview/commit raised ' + r['err'], block_region=True, placement=True)
     fail = None
     marked = sorted(int(x) for x in re.findall(r'\[Edit:(\d+)\]', r['preview']))
     applied_n = r['r']['ap']
@@ -36,7 +36,7 @@ def judge_case(d, edits, r, c):
         acc_prev, _, wf = C14.read_view(r['preview'], 'accept')
         if strip_markers(acc_prev) != strip_markers(r['final']):
             fail = 'preview read with all suggestions accepted differs from the accepted view of the committed document: ' + json.dumps(docrun.first_diff(strip_markers(r['final']), strip_markers(acc_prev)))
-    f, kn = J.classify(c, fail, meta_region=True, block_region=True)
+    f, kn = J.classify(c, fail, meta_region=True, block_region=True, placement=True)
     if f and not kn and J.in_virtual(c, c.get('raw_in') or docrun.extract(c['b'], False)): kn = ('D40', J.WHAT['D40'])
     if f and not kn and 'differs' in f and J.emptied_story(c) and J.norm_sep(strip_markers(C14.read_view(r['preview'], 'accept')[0])) == J.norm_sep(strip_markers(r['final'])):
         kn = ('D56', J.WHAT['D56'])
